@@ -49,6 +49,26 @@ def count_range(P, b, names, summaries, cache=None):
     return groups
 
 
+def swap_vars_exchanges(P, sw):
+    """swap_vars exchanges the two whole variable maps: `mem::swap(&mut a, &mut b)`, or the same through a temporary —
+    `let t = mem::take(&mut a); a = mem::replace(&mut b, t);` (either map first)."""
+    cs = panrules.canon_calls(P, sw)
+    V, A = "self.vars", "self.alt_vars"
+    if cs in ([("mem::swap", [V, A])], [("mem::swap", [A, V])]):
+        return True
+    for x, y in ((V, A), (A, V)):
+        if cs == [("mem::take", [x]), ("mem::replace", [y, "mem::take(%s)" % x])]:
+            stores = set()
+            for bb in sorted(sw.reachable_blocks()):
+                for i, st in enumerate(sw.blocks[bb]["stmts"]):
+                    flds = [e.get("f") for e in st.get("lhs", {}).get("p", []) if isinstance(e, dict) and "f" in e] if st["s"] == "assign" else []
+                    if flds and flds[-1] in ("vars", "alt_vars"):
+                        stores.add((flds[-1], canon(P.resolve(sw, P.sl(sw).rvalue(st["rv"], bb, i)))))
+            if stores == {(x.split(".")[-1], "mem::replace(%s, mem::take(%s))" % (y, x))}:
+                return True
+    return False
+
+
 def callees_in(P, b):
     return [callee_name(t)[0] for bb, t in b.calls()]
 
@@ -119,7 +139,7 @@ def swap_pair_rule(chk, P):
     sw = P.body(EC + "swap_vars")
     if chk.anchor("swap_vars", sw):
         cs = panrules.canon_calls(P, sw)
-        chk.require(cs == [("mem::swap", ["self.vars", "self.alt_vars"])], "TAB", "TAB:swap_vars", "mem::swap(&mut self.vars, &mut self.alt_vars)", "swap_vars does %s" % cs)
+        chk.require(swap_vars_exchanges(P, sw), "TAB", "TAB:swap_vars", "mem::swap(&mut self.vars, &mut self.alt_vars) (or the same exchange through a temporary)", "swap_vars does %s" % cs)
     w = sorted(set(x[0].name for x in P.field_writers("eval_context::EvalContext", "alt_vars")))
     chk.require(w == [EC + "swap_vars"], "WHO", "WHO:alt_vars-writers", "alt_vars is touched mutably only by swap_vars (it stays empty)", "alt_vars mutably used in %s" % w)
     w = sorted(set(x[0].name for x in P.field_writers("eval_context::EvalContext", "vars")))
